@@ -313,6 +313,10 @@ def execute(scn, guide=None, keep=False, observer=None):
                     hist.append(("ret", i, k.ev("ret", i), None))
                     if observer is not None:
                         observer.after_write(i, w, k)
+                    if i % 3 == 0:
+                        # status properties a caller may poll; they must not disturb anything
+                        pw_ = getattr(w, "_writer_delegate", w)
+                        _ = (w.is_connected, w.is_printing, pw_.has_pending_operations)
                 except SimAbort:
                     raise
                 except BaseException as e:
